@@ -226,6 +226,39 @@ def mgrParse (ts : List String) : Option MObs :=
     | _, _ => none
   | _ => none
 
+/-! ### flow -/
+
+structure FlowCase where
+  mode : String
+  inp : FlowIn
+
+def flowInput (ts : List String) : Option FlowCase :=
+  match after "mode" ts, natAfter "chunk" ts, natAfter "at" ts with
+  | m :: _, some c, some k =>
+    if k = 0 then none else
+    let d : C02.ReadEv := { data := List.replicate c 0, err := none }
+    let pre := List.replicate (k - 1) d
+    if m == "eof" then some ⟨m, ⟨pre, []⟩⟩
+    else if m == "err" || m == "close" then some ⟨m, ⟨pre ++ [{ data := [], err := some .fatal }], []⟩⟩
+    else if m == "werr" then
+      some ⟨m, ⟨List.replicate k d, List.replicate (k - 1) ⟨c, false⟩ ++ [⟨0, true⟩]⟩⟩
+    else if m == "ctx" then
+      some ⟨m, ⟨pre ++ [{ d with cancelled := true }] ++
+        List.replicate (Gen.cloudconst.ContextCheckInterval + 5) d, []⟩⟩
+    else none
+  | _, _, _ => none
+
+def flowShow (m : String) (o : FObs) (upd : Nat) : String :=
+  s!"del {o.del} cnt {o.cnt} {if m == "close" then "cstats" else "stats"} {o.statS} {o.statR} upd {upd} leak {o.leak}"
+
+def flowParse (ts : List String) : Option FObs :=
+  match ts with
+  | ["del", a, "cnt", b, _, c, d, "upd", _, "leak", g] =>
+    match natList [a, b, c, d, g] with
+    | some [a, b, c, d, g] => some ⟨a, b, c, d, g⟩
+    | _ => none
+  | _ => none
+
 /-! ### entry points -/
 
 def runModel (ts : List String) : String :=
@@ -252,6 +285,14 @@ def runModel (ts : List String) : String :=
     match spInput ts with
     | some i => spShow (sObs (sFinal .repaired i.ops i.n (spSched i)))
     | none => "bad-case"
+  | "flow" :: _ =>
+    match flowInput ts, natAfter "ms" ts with
+    | some f, some ms =>
+      -- = fObs f.inp s₂ (by definition), with the copy loop evaluated once
+      let st := flowCopy f.inp
+      let rep := flowReportOf st.counter (lcgSched ms 2 6)
+      flowShow f.mode (fObsOf st rep) rep.updates
+    | _, _ => "bad-case"
   | "mgr" :: _ =>
     -- two clean handlers: ResourceBase.onClose and the component's own onClose
     match mgrInput ts with
@@ -281,6 +322,10 @@ def runHolds (caseToks obsToks : List String) : String :=
   | "sp" :: _ =>
     match spInput caseToks, spParse obsToks with
     | some _, some o => holdsS o
+    | _, _ => false
+  | "flow" :: _ =>
+    match flowInput caseToks, flowParse obsToks with
+    | some f, some o => holdsF (f.mode == "close") o
     | _, _ => false
   | "mgr" :: _ =>
     match mgrInput caseToks, mgrParse obsToks with
